@@ -136,6 +136,8 @@ impl<'a> Gen<'a> {
             if i + 1 < n || self.rng.chance(1, 3) { s.push_str(if self.rng.chance(1, 6) { ";" } else { "," }); }
             if tc && self.rng.chance(1, 5) { self.stats[0] += 1; s.push_str(&format!(" -- f{}", self.rng.below(1000))); }
             if multiline { s.push_str(self.nl()); }
+            // a table that starts on the line of its brace may still hold an empty line between two fields or before the closing brace
+            else if self.rng.chance(1, 10) { s.push_str(self.nl()); s.push_str(self.nl()); }
         }
         if tc && self.rng.chance(1, 10) { self.stats[0] += 1; s.push_str(&format!(" -- e{}{}", self.rng.below(1000), self.nl())); }
         s.push_str(" }");
@@ -201,6 +203,14 @@ impl<'a> Gen<'a> {
             6 => { let o = self.open_nl(); let b = body(self, 3); format!("do{}{}{}end", o, b, ind) }
             7 => { let c = self.expr(2); let ce = self.cond_end(); let o = self.open_nl(); let b = body(self, 3); format!("while {}{}do{}{}{}end", c, ce, o, b, ind) }
             8 => { let o = self.open_nl(); let b = body(self, 2); let c = self.expr(2); format!("repeat{}{}{}until {}", o, b, ind, c) }
+            // one `if` in four has the shape the option collapse_simple_statement writes on one line: a single simple statement, no else
+            // (a comment may trail `then`, an empty line may precede `end`)
+            9 | 10 if self.rng.chance(1, 4) => {
+                let c = self.expr(2); let o = self.open_nl();
+                let st = match self.rng.below(4) { 0 => "return".to_string(), 1 => format!("return {}", self.expr(1)), 2 => format!("{}()", self.name()), _ => format!("{} = {}", self.name(), self.expr(1)) };
+                let gap = if self.rng.chance(1, 6) { format!("{}{}", self.nl(), self.nl()) } else { self.nl().to_string() };
+                format!("if {} then{}{}\t{}{}{}end", c, o, ind, st, gap, ind)
+            }
             9 | 10 => {
                 let c = self.expr(2); let ce = self.cond_end(); let o = self.open_nl(); let b = body(self, 3);
                 let mut s = format!("if {}{}then{}{}", c, ce, o, b);
